@@ -602,6 +602,13 @@ static int aaf_talker_tx_timeout(int fd_timer, int fd_sk,
         return -1;
     }
 
+    /* The timer is armed from a timestamp taken from the network. If that
+     * lies far in the past the timer reports all the missed periods at once:
+     * do not try to catch up more than one second of media clock.
+     */
+    if (expirations > NSEC_PER_SEC / AAF_PERIOD)
+        expirations = NSEC_PER_SEC / AAF_PERIOD;
+
     while (expirations--) {
         avtp_time = get_next_mclk_timestamp();
 
